@@ -314,8 +314,13 @@ def mutant_part(rep):
     ME = model_error_classes()
     n = 0
     for name, mutate, needs_anc in mutants():
-        for entry in ("register_model", "NaniteFitModel"):
+        for entry in ("register_model", "NaniteFitModel",
+                      "register_model:key-in-use"):
             with Registry() as reg:
+                if entry.endswith("key-in-use"):
+                    # a valid model is registered under the key first
+                    Mv, _ = make_module("vk_mut", 2.0)
+                    logic.register_model(Mv)
                 M, _ = make_module("vk_mut", 1.0,
                                    anc={"E": 1234.0} if needs_anc else None)
                 mutate(M)
@@ -323,7 +328,7 @@ def mutant_part(rep):
                 before = dict(logic.models_available)
                 n += 1
                 try:
-                    if entry == "register_model":
+                    if entry.startswith("register_model"):
                         logic.register_model(M)
                     else:
                         NaniteFitModel(M)
@@ -339,10 +344,14 @@ def mutant_part(rep):
                                   witness=name, detail=f"rejected with "
                                   f"{e!r}, not a model error", case=case,
                                   kind="mutant"))
-                if dict(logic.models_available) != before:
+                after = dict(logic.models_available)
+                if list(after) != list(before) or any(
+                        after[k] is not before[k] for k in before):
                     rep.violate(V(PROP, "registry-changed", site=entry,
                                   witness=name, detail="the registry changed "
-                                  "although the module was rejected",
+                                  "although the module was rejected: keys "
+                                  f"{sorted(set(before) ^ set(after))} "
+                                  "lost/gained, or an entry was replaced",
                                   case=case, kind="mutant"))
     rep.add("transitions", n)
     rep.add("traces_validated_against_impl", n)
